@@ -141,7 +141,7 @@ PROPS = {
                      "sessions are modelled abstractly in the accounting lemmas: a map from session ids to the selected database"],
     ),
     "C06": dict(
-        units=["snapshot"],
+        units=["snapshot", "store"],
         undecided=["the whole-history half for INCREMENTAL snapshots: that the image produced by the write plan loads back to the snapshotted state needs the cross-snapshot "
                    "invariant (every persisted key has exactly one record, at its remembered key_disk_addr, inside the key file; no stale records) - it is a "
                    "precondition here (mem_slots_inside), not an established invariant; the bounded sweep family `snapshot` exercises it on the real code",
